@@ -764,7 +764,7 @@ func (s *Stream) injectsIntoRow() bool {
 	}
 	if s.config.NeedWindow {
 		for _, gf := range s.config.GroupFields {
-			if strings.Contains(gf, "(") {
+			if s.groupFieldNeedsInjection(gf) {
 				return true
 			}
 		}
